@@ -11,11 +11,13 @@ import (
 	"reflect"
 	"strings"
 
+	"github.com/protolambda/zrnt/eth2/beacon"
 	"github.com/protolambda/zrnt/eth2/beacon/altair"
 	"github.com/protolambda/zrnt/eth2/beacon/bellatrix"
 	"github.com/protolambda/zrnt/eth2/beacon/capella"
 	"github.com/protolambda/zrnt/eth2/beacon/common"
 	"github.com/protolambda/zrnt/eth2/beacon/deneb"
+	"github.com/protolambda/zrnt/eth2/beacon/electra"
 	"github.com/protolambda/zrnt/eth2/beacon/phase0"
 	"github.com/protolambda/ztyp/codec"
 	"github.com/protolambda/ztyp/tree"
@@ -551,8 +553,57 @@ func (s *sim) rawOf(st common.BeaconState) interface{} {
 		var r deneb.BeaconState
 		r.Deserialize(s.w.spec, dr())
 		return &r
+	case 5:
+		var r electra.BeaconState
+		r.Deserialize(s.w.spec, dr())
+		return &r
 	}
 	return nil
+}
+
+// electraOf: an electra state holding the content of a deneb state, with generated values in the
+// fields that electra adds (the library has accessors for electra states but no transition, so no
+// electra state is ever reached by the chain itself)
+func (s *sim) electraOf(box *stateBox) *stateBox {
+	d, ok := s.rawOf(unwrap(box.st)).(*deneb.BeaconState)
+	if !ok {
+		return nil
+	}
+	var e electra.BeaconState
+	dv, ev := reflect.ValueOf(d).Elem(), reflect.ValueOf(&e).Elem()
+	for i := 0; i < ev.NumField(); i++ {
+		if f := dv.FieldByName(ev.Type().Field(i).Name); f.IsValid() && f.Type().AssignableTo(ev.Field(i).Type()) {
+			ev.Field(i).Set(f)
+		}
+	}
+	r := s.frng
+	e.DepositRequestsStartIndex = view.Uint64View(r.U64())
+	e.DepositBalanceToConsume = common.Gwei(r.U64() >> 20)
+	e.ExitBalanceToConsume = common.Gwei(r.U64() >> 20)
+	e.EarliestExitEpoch = common.Epoch(r.U64() >> 40)
+	e.ConsolidationBalanceToConsume = common.Gwei(r.U64() >> 20)
+	e.EarliestConsolidationEpoch = common.Epoch(r.U64() >> 40)
+	for i, n := 0, r.Intn(4); i < n; i++ {
+		pd := common.PendingDeposit{Amount: common.Gwei(r.U64() >> 24), Slot: common.Slot(r.U64() >> 40), WithdrawalCredentials: fnvRoot("pd-wc", uint64(i))}
+		copy(pd.Pubkey[:], s.w.keys.pub[i%len(s.w.keys.pub)][:])
+		pd.Signature[0], pd.Signature[95] = 0xc0, byte(i)
+		e.PendingDeposits = append(e.PendingDeposits, pd)
+	}
+	for i, n := 0, r.Intn(4); i < n; i++ {
+		e.PendingPartialWithdrawals = append(e.PendingPartialWithdrawals, common.PendingPartialWithdrawal{ValidatorIndex: common.ValidatorIndex(r.Intn(len(e.Validators) + 1)), Amount: common.Gwei(r.U64() >> 24), WithdrawableEpoch: common.Epoch(r.U64() >> 40)})
+	}
+	for i, n := 0, r.Intn(3); i < n; i++ {
+		e.PendingConsolidations = append(e.PendingConsolidations, common.PendingConsolidation{SourceIndex: common.ValidatorIndex(i), TargetIndex: common.ValidatorIndex(i + 1)})
+	}
+	var buf bytes.Buffer
+	if err := e.Serialize(s.w.spec, codec.NewEncodingWriter(&buf)); err != nil {
+		return nil
+	}
+	st, err := decodeState(s.w.spec, 5, buf.Bytes())
+	if err != nil {
+		return nil
+	}
+	return &stateBox{st: &beacon.StandardUpgradeableBeaconState{BeaconState: st}, epc: box.epc}
 }
 
 func fieldOf(raw interface{}, name string) interface{} {
@@ -994,6 +1045,61 @@ func (s *sim) checkAccessors(box *stateBox, where string) {
 				return
 			}
 			s.res.Stat("setter_checks", 2)
+		}
+	}
+	// the scalar fields electra adds: getter reads its own field, setter writes it and nothing else
+	electraBefore := serializeState(st)
+	for i, f := range []string{"DepositRequestsStartIndex", "DepositBalanceToConsume", "ExitBalanceToConsume", "EarliestExitEpoch", "ConsolidationBalanceToConsume", "EarliestConsolidationEpoch"} {
+		g := reflect.ValueOf(st).MethodByName(f)
+		if !g.IsValid() {
+			continue
+		}
+		outs := g.Call(nil)
+		if len(outs) != 2 || !outs[1].IsNil() || !reflect.DeepEqual(outs[0].Interface(), fieldOf(raw, f)) {
+			bad(f, outs[0].Interface(), fieldOf(raw, f))
+			return
+		}
+		cp, err := st.CopyState()
+		if err != nil {
+			continue
+		}
+		_ = cp.HashTreeRoot(tree.GetHashFn())
+		nv := reflect.New(outs[0].Type()).Elem()
+		nv.SetUint(outs[0].Uint() + 1 + uint64(i)<<33)
+		var so []reflect.Value
+		if p := guard(func() { so = reflect.ValueOf(cp).MethodByName("Set" + f).Call([]reflect.Value{nv}) }); p != nil {
+			s.viol("C15", "setter-panic/"+f+"/"+p.frame, p.val)
+			return
+		}
+		if len(so) == 1 && !so[0].IsNil() {
+			s.viol("C15", "setter-error/"+f, fmt.Sprintf("%s (%s): %v", where, forkName(st), so[0].Interface()))
+			return
+		}
+		s.res.Stat("setter_checks", 1)
+		after := s.rawOf(cp)
+		if got := fieldOf(after, f); !reflect.DeepEqual(got, nv.Interface()) {
+			s.viol("C15", "setter-value/"+f, fmt.Sprintf("%s (%s): Set%s(%v): the state now holds %v (before: %v)", where, forkName(st), f, nv.Interface(), got, fieldOf(raw, f)))
+			return
+		}
+		if ch := changedFields(raw, after); len(ch) != 1 || ch[0] != f {
+			s.viol("C15", "setter-touches-other-fields/"+f, fmt.Sprintf("%s (%s): setting %s changed %v", where, forkName(st), f, ch))
+			return
+		}
+		if g2 := reflect.ValueOf(cp).MethodByName(f).Call(nil); !reflect.DeepEqual(g2[0].Interface(), nv.Interface()) {
+			s.viol("C15", "getter/"+f, fmt.Sprintf("%s (%s): after Set%s(%v) the getter returns %v", where, forkName(st), f, nv.Interface(), g2[0].Interface()))
+			return
+		}
+		if sr, ok := after.(interface {
+			HashTreeRoot(spec *common.Spec, hFn tree.HashFn) common.Root
+		}); ok {
+			if r1, r2 := cp.HashTreeRoot(tree.GetHashFn()), sr.HashTreeRoot(s.w.spec, tree.GetHashFn()); r1 != r2 {
+				s.viol("C05", "state/root-after-setter-vs-rebuilt/"+f, fmt.Sprintf("%s (%s): after Set%s the state reports root %s, the same content built from scratch has root %s", where, forkName(st), f, r1, r2))
+				return
+			}
+		}
+		if !bytes.Equal(serializeState(st), electraBefore) {
+			s.viol("C15", "copy-independence/setter-on-copy-changed-original/"+f, fmt.Sprintf("%s (%s)", where, forkName(st)))
+			return
 		}
 	}
 	// setters take values: what the caller does with its own struct afterwards must not reach the state
